@@ -7,10 +7,28 @@ pub type Res = (u8, u64);
 pub const NTY: u8 = 6;
 pub const NDY: u64 = 4;
 
-/// declared data of the six batch-controller types the harness provides: (reads, writes)
-pub const CTL: [(&[Res], &[Res]); 6] = [(&[], &[]), (&[(0, 0)], &[]), (&[], &[(1, 0)]), (&[(2, 0)], &[(0, 0)]), (&[(3, 0)], &[]), (&[], &[(4, 0)])];
+pub const NCTL: usize = 11;
+/// declared data of the batch-controller types the harness provides: (reads, writes), in
+/// declaration order. 0..=8 hand-written controllers (`sys.rs::Ctl*`), 9 and 10 the library's
+/// `MultiDispatcher` around a `MultiDispatchController` (`sys.rs::Plan*`).
+pub const CTL: [(&[Res], &[Res]); NCTL] = [
+    (&[], &[]),
+    (&[(0, 0)], &[]),
+    (&[], &[(1, 0)]),
+    (&[(2, 0)], &[(0, 0)]),
+    (&[(3, 0)], &[]),
+    (&[], &[(4, 0)]),
+    (&[], &[(4, 0), (5, 0)]),
+    (&[], &[(5, 0), (4, 0)]),
+    (&[(3, 0), (2, 0)], &[(1, 0)]),
+    (&[], &[]),
+    (&[(3, 0)], &[(5, 0)]),
+];
 /// resources a controller's data creates in `setup` (DefaultProvider members only)
-pub const CTL_CREATES: [&[Res]; 6] = [&[], &[(0, 0)], &[(1, 0)], &[(2, 0), (0, 0)], &[], &[]];
+pub const CTL_CREATES: [&[Res]; NCTL] = [&[], &[(0, 0)], &[(1, 0)], &[(2, 0), (0, 0)], &[], &[], &[(4, 0), (5, 0)], &[(5, 0), (4, 0)], &[(3, 0), (2, 0), (1, 0)], &[], &[(5, 0), (3, 0)]];
+pub fn ctl_is_multi(ctl: usize) -> bool {
+    ctl >= 9
+}
 
 #[derive(Clone, Debug, PartialEq)]
 pub enum Op {
@@ -90,7 +108,7 @@ impl Op {
                         tag: tag.parse().unwrap_or(0),
                         name: unhex(name),
                         deps: parse_hexl(deps),
-                        ctl: ctl.parse::<usize>().unwrap_or(0) % 6,
+                        ctl: ctl.parse::<usize>().unwrap_or(0) % NCTL,
                         t: t.parse().unwrap_or(5),
                         n: n.parse().unwrap_or(1),
                         inner,
@@ -215,6 +233,15 @@ impl GenCfg {
             "flat" => {
                 c.p_batch = 0;
             }
+            "wide" => {
+                // many mutually independent systems: wide stages
+                c.max_n = 26;
+                c.p_unrelated = 75;
+                c.p_dep = 5;
+                c.p_barrier = 4;
+                c.p_batch = 4;
+                c.p_tl = 3;
+            }
             "kf1" => {
                 c.tl_in_batch = true;
                 c.p_batch = 30;
@@ -247,10 +274,12 @@ impl Gen {
         if c < self.cfg.p_empty_name {
             String::new()
         } else if c < self.cfg.p_empty_name + self.cfg.p_odd_name {
-            match self.rng.below(3) {
+            match self.rng.below(5) {
                 0 => format!("sys {}-x/{}", tag, tag),
                 1 => format!("s\u{e9}-{} /", tag),
-                _ => format!("unnamed_system_{}", tag),
+                2 => format!("unnamed_system_{}", tag),
+                // distinct names that coincide once sanitised (' ', '-', '/' become '_')
+                _ => format!("c{}{}", *self.rng.pick(&[' ', '-', '/', '_']), self.rng.below(2)),
             }
         } else {
             format!("s{}", tag)
@@ -342,7 +371,9 @@ impl Gen {
                 let mut inner_names = vec![];
                 let inner = self.ops(kk, depth + 1, &mut inner_names);
                 let nn = self.rng.below(self.cfg.max_batch_n + 1) as usize;
-                v.push(Op::Batch { tag, name: name.clone(), deps, ctl: self.rng.below(6) as usize, t, n: nn, inner });
+                // a third of the batches are driven by the library's own MultiDispatcher
+                let ctl = if self.rng.chance(35) { 9 + self.rng.below(2) as usize } else { self.rng.below(9) as usize };
+                v.push(Op::Batch { tag, name: name.clone(), deps, ctl, t, n: nn, inner });
             } else if self.cfg.funnel {
                 // one long system opens a stage; the rest are short and mostly conflict with one
                 // group, so groups fill up; members read several ids of a pool that a few late
